@@ -3,7 +3,7 @@ import ast
 
 from pyvc.core import source
 from props import common, generic
-from props.C06 import stack_mapping, site_inventory
+from props.C06 import stack_mapping, site_inventory, SITE_FUNCS
 
 
 def nl_obligations(rep):
@@ -33,7 +33,7 @@ def nl_obligations(rep):
 
 def run(rep):
     return generic.run_generic(
-        rep, [('sqlparse.formatter.validate_options', None)], structural=[nl_obligations, stack_mapping],
+        rep, [('sqlparse.formatter.validate_options', None)] + SITE_FUNCS[:4], structural=[nl_obligations, stack_mapping],
         assumptions=['per-function normal forms (_stripws_default, _stripws_parenthesis, _stripws_identifierlist, '
                      'SpacesAroundOperatorsFilter._process, _split_kwds) are not yet under SMT contracts: shape obligations '
                      'over the AST plus the bounded stand-in (normal-form oracles on grammar scripts, fixed points)',
